@@ -101,6 +101,13 @@ class LogGaussianPrior(Prior):
         """
         return super().value_for(unit, ignore_prior_limits=ignore_prior_limits)
 
+    def dict(self) -> dict:
+        """
+        A dictionary representation of this prior
+        """
+        prior_dict = super().dict()
+        return {**prior_dict, "mean": self.mean, "sigma": self.sigma}
+
     @property
     def parameter_string(self) -> str:
         return f"mean = {self.mean}, sigma = {self.sigma}"
